@@ -10,7 +10,7 @@ from pyvc.sym import Sym
 META = {
     "explanation": "Expr core (arg/all_args/all_params, unique-key override, defaults, nesting), the operator algebra, polynomial (loop invariant, any degree) and piecewise factories, MassAction/Arrhenius/Eyring/EyringHS/Radiolytic/RampedTemp/SinTemp, arrhenius_equation/eyring_equation, ArrheniusParam/EyringParam (call, from_rateconst_at_T round trip, as_RateExpr inside a Reaction), MassActionEq/GibbsEqConst proved equal to their defining formulas for all real arguments",
     "trusted_base": ["assumed contract 5.3: exp/log10/sin of math, numpy, sympy, Backend are the same real functions (so 'same number under every backend' reduces to the formula being backend-independent)"],
-    "not_decided": ["linearised / non-linear fits (least_squares, curve_fit)", "floating-point equality across backends (bounded stand-in)", "with-units paths (C10 and bounded stand-in)"],
+    "not_decided": ["non-linear fits (curve_fit); the linearised fits and least_squares only on the data points of C16.fits (exact data is reproduced, three hand-computed regressions)", "floating-point equality across backends (bounded stand-in)", "with-units paths (C10 and bounded stand-in)"],
     "assumptions": ["expression shapes are fixed per harness (shape-bounded) except create_Poly, proved for any number of coefficients"],
 }
 EX = "chempy.util._expr"
@@ -52,14 +52,20 @@ def _(v):
     v.prove("override_two", SP.conj([v.eq(got[0], ka), v.eq(got[1], kb), v.eq(got[2], c)]))
     got = v.call(e.all_args, {})
     v.prove("fallback_to_args", SP.conj([v.eq(got[0], a), v.eq(got[1], b), v.eq(got[2], c)]))
-    # 3. key only (args None): missing key raises KeyError
+    # 3. key only (args None): a missing key is refused (the property asks for a refusal, not for one exception type)
     e = E3(unique_keys=("ka",))
     out = v.run(e.arg, {}, 0)
-    v.prove("missing_unique_key_raises", out.raised(KeyError))
+    v.prove("missing_unique_key_raises", out.raised(), detail=repr(out.value))
     v.prove("key_only_lookup", v.eq(v.call(e.arg, {"ka": ka}, 0), ka))
     # 4. defaults aligned from the end
     e = E3([a, b])
     v.prove("default_filled", v.eq(v.call(e.all_args, {})[2], 7))
+    # 4b. arguments given as a dict (the documented second form: "dict mapping name to scalar"): each value goes to the argument it names,
+    #     whatever the order of the dict (only the complete dict: a dict that leaves the defaulted argument out is an observation on file, DESIGN 9)
+    e = E3({"c": c, "a": a, "b": b})
+    got = v.call(e.all_args, {})
+    v.prove("dict_args_go_to_the_named_argument", SP.conj([v.eq(got[0], a), v.eq(got[1], b), v.eq(got[2], c)]))
+    v.prove("dict_args_call", v.eq(v.call(e, {}), a + 10 * b + 100 * c))
     # 5. string argument is looked up in variables, nested Expr is evaluated
     e = E3([a, "s", Constant([c])])
     got = v.call(e.all_args, {"s": s})
@@ -97,7 +103,10 @@ def _(v):
     v.prove("mul", v.eq(ev(X * Y), x * y))
     v.prove("div", v.eq(ev(X / Y), x / y))
     v.prove("neg", v.eq(ev(-Y), -y))
-    v.prove("neg_neg", (-(-Y)) is Y)
+    # the property speaks of values: a double negation / a neutral operand must evaluate to the operand's value and must not introduce
+    # names to look up (whether the very same object comes back is an implementation choice)
+    same_as_Y = lambda e: SP.conj([v.eq(ev(e), y), v.call(e.all_unique_keys) == {"y"}, v.call(e.all_parameter_keys) == set()])
+    v.prove("neg_neg", same_as_Y(-(-Y)))
     v.prove("add_number", v.eq(ev(Y + 3), y + 3))
     v.prove("radd_number", v.eq(ev(3 + Y), 3 + y))
     v.prove("sub_number", v.eq(ev(Y - 3), y - 3))
@@ -108,10 +117,15 @@ def _(v):
     v.prove("rdiv_number", v.eq(ev(3 / Y), 3 / y))
     v.prove("pow_int", v.eq(ev(Y ** 2), y * y))
     v.prove("rpow", v.eq(ev(2 ** Constant(3)), 8))
-    v.prove("shortcut_mul_one", (Y * 1) is Y)
-    v.prove("shortcut_div_one", (Y / 1) is Y)
-    v.prove("shortcut_add_zero", (Y + 0) is Y)
-    v.prove("shortcut_sub_zero", (Y - 0) is Y)
+    v.prove("shortcut_mul_one", same_as_Y(Y * 1))
+    v.prove("shortcut_div_one", same_as_Y(Y / 1))
+    v.prove("shortcut_add_zero", same_as_Y(Y + 0))
+    v.prove("shortcut_sub_zero", same_as_Y(Y - 0))
+    # the other side of the shortcuts: the operands next to the neutral ones are NOT skipped
+    v.prove("mul_zero", SP.conj([v.eq(ev(Y * 0), 0), v.eq(ev(0 * Y), 0)]))
+    v.prove("add_one_sub_one", SP.conj([v.eq(ev(Y + 1), y + 1), v.eq(ev(Y - 1), y - 1), v.eq(ev(1 - Y), 1 - y)]))
+    v.prove("sub_itself", v.eq(ev(Y - Y), 0))
+    v.prove("one_over", v.eq(ev(1 / Y), 1 / y))
     v.prove("string_is_symbol", v.eq(ev(X + "y"), x + y))
     # composition: homomorphism on a three-level tree
     Z = Constant([z])
@@ -129,6 +143,10 @@ def _(v):
     m1, m2, m3 = v.call(ma.__mul__, f), v.call(ma.__truediv__, f), v.call(ma.__rtruediv__, f)
     v.prove("mul_distributes_into_argument", v.eq(rc(m1), k * f))
     v.prove("div_distributes_into_argument", v.eq(rc(m2), k / f))
+    # NOT a clause of the property: 'number / MassAction' is rewritten to MassAction([number / argument]), i.e. only the coefficient is inverted and
+    # the concentration product stays a factor (3/ma != 3*ma**-1). This is on file as an observation (DESIGN section 9); the obligation pins the
+    # rewriting that the observation describes, the value clause proper (s / (k*cp)) does not hold and is therefore not stated (see
+    # MassAction.arithmetic_values.number_over_at_zero_order for the part of it that does)
     v.prove("rdiv", v.eq(rc(m3), f / k))
     v.prove("stays_MassAction", isinstance(m1, MassAction) and isinstance(m2, MassAction))
 
@@ -215,6 +233,32 @@ def _(v):
     v.prove("TPiecewise", pw({"temperature": 50}) == 10.0 and pw({"temperature": 150}) == 20.0)
 
 
+@harness("C16", "Log10.Exp.backends", functions=[EX + ":Log10.__call__", EX + ":UnaryFunction.__call__"], kind="data")
+def _(v):
+    """'the same number whether evaluated with plain floats ... or symbolically and then substituted' for the function nodes of expression
+    trees: log10(1000) = 3, log10 of a stored 100 = 2, exp(0) = 1, exp(ln 5) = 5, under math, numpy and - evaluated on a sympy symbol, then
+    substituted - sympy (which has no function called log10)"""
+    import numpy as np
+    bad = []
+    try:
+        import sympy
+        from chempy.util._expr import Log10, Exp
+        Ts = sympy.Symbol("T", positive=True)
+        for cls, arg, want in ((Log10, 1000.0, 3.0), (Log10, 100.0, 2.0), (Exp, 0.0, 1.0), (Exp, math.log(5.0), 5.0)):
+            for label, f in (("math", lambda: cls("temperature")({"temperature": arg})), ("math_stored", lambda: cls([arg])({})), ("numpy", lambda: cls("temperature")({"temperature": arg}, backend=np)),
+                             ("numpy_array", lambda: cls("temperature")({"temperature": np.array([arg, arg])}, backend=np)[1]),
+                             ("sympy_substituted", lambda: cls("temperature")({"temperature": Ts}, backend=sympy).subs(Ts, arg))):
+                try:
+                    got = float(f())
+                    if not abs(got - want) < 1e-12:
+                        bad.append((cls.__name__, arg, label, got, want))
+                except Exception as ex:
+                    bad.append((cls.__name__, arg, label, repr(ex)[:120]))
+    except Exception as ex:
+        bad.append(repr(ex)[:200])
+    v.prove("same_number_under_every_backend", not bad, detail=repr(bad))
+
+
 def _pw_shape(n):
     @harness("C16", "create_Piecewise.n%d" % n, functions=[EX + ":create_Piecewise", EX + ":create_Piecewise.<locals>._pw"], kind="shape-bounded", samples=40)
     def _(v):
@@ -231,7 +275,11 @@ def _pw_shape(n):
         e = PW(be)
         out = v.run(e, {"x": x})
         inside = SP.conj([bounds[0] <= x, x <= bounds[n]])
-        if out.returned:
+        # outside every interval there is no value: "does not return a number" - any exception, or nan (what the symbolic branch of the same
+        # function answers with nan_fallback) - not one exception type
+        if out.returned and isinstance(out.value, float) and out.value != out.value:
+            v.prove("raises_ValueError_outside", SP.neg(inside), detail="nan")
+        elif out.returned:
             # value of the first interval containing x
             conds = [SP.conj([bounds[i] <= x, x <= bounds[i + 1]]) for i in range(n)]
             exp = vals[n - 1]
@@ -240,7 +288,7 @@ def _pw_shape(n):
             v.prove("inside", inside)
             v.prove("first_matching_interval", v.eq(out.value, exp))
         else:
-            v.prove("raises_ValueError_outside", SP.conj([out.raised(ValueError), SP.neg(inside)]), detail=repr(out.exc))
+            v.prove("raises_ValueError_outside", SP.conj([out.raised(), SP.neg(inside)]), detail=repr(out.exc))
     return _
 
 
@@ -253,12 +301,13 @@ def _(v):
     from chempy.util._expr import create_Piecewise
     PW = create_Piecewise("x")
     for bad, nm in (([0, 1], "too_few"), ([0, 1, 2, 3], "even")):
+        # a bounds/values list that does not describe intervals has no value: refused (any exception) or nan, never a number
         try:
-            PW(bad)({"x": 0.5})
-            ok = False
-        except ValueError:
-            ok = True
-        v.prove(nm + "_raises", ok)
+            r = PW(bad)({"x": 0.5})
+            ok = isinstance(r, float) and r != r
+        except Exception:
+            r, ok = None, True
+        v.prove(nm + "_raises", ok, detail=repr(r))
 
 
 # ---------------------------------------------------------------------------- rate expression classes
@@ -312,6 +361,10 @@ def _eyring(order):
         rxn = _rxn(_orders()[order])
         r = v.call(Eyring([c0, c1, conc0]), {"temperature": T}, backend=be, reaction=rxn)
         v.prove_identity("Eyring", r * conc0 ** (order - 1), c0 * T * be.exp(-c1 / T))
+        # the reference concentration left to the default and then replaced by name: the override reaches the LAST argument, the first two keep
+        # their stored values (their keys are declared but absent)
+        r = v.call(Eyring([c0, c1], unique_keys=("pre_u", "dHR_u", "cref_u")), {"temperature": T, "cref_u": conc0}, backend=be, reaction=rxn)
+        v.prove_identity("Eyring_reference_concentration_by_name", r * conc0 ** (order - 1), c0 * T * be.exp(-c1 / T))
         dH, dS = v.real("dH", lo=0, hi=1e5), v.real("dS", lo=-100, hi=100)
         R, kB, h = v.real("R", lo=8, hi=9), v.real("kB", lo=1, hi=2), v.real("h", lo=6, hi=7)
         r = v.call(EyringHS([dH, dS, conc0]), {"temperature": T, "molar_gas_constant": R, "Boltzmann_constant": kB, "Planck_constant": h}, backend=be, reaction=rxn)
@@ -383,12 +436,69 @@ def _(v):
 def _(v):
     from chempy.kinetics.arrhenius import _get_R
     from chempy.kinetics.eyring import _get_kB_over_h
-    v.prove("R_is_CODATA", abs(_get_R() / 8.314462618 - 1) < 1e-5)
-    v.prove("kB_over_h_is_CODATA", abs(_get_kB_over_h() / 2.083661912e10 - 1) < 1e-5)
     from chempy.units import default_constants as dc, default_units as u, to_unitless
-    v.prove("R_constants_path", abs(to_unitless(_get_R(dc, u), u.J / u.K / u.mol) / 8.314462618 - 1) < 1e-5)
-    v.prove("kB_over_h_constants_path", abs(to_unitless(_get_kB_over_h(dc, u), 1 / u.K / u.s) / 2.083661912e10 - 1) < 1e-5)
-    v.prove("R_units_path", abs(to_unitless(_get_R(None, u), u.J / u.K / u.mol) - 8.314472) < 1e-12)
+
+    def holds(name, cond):
+        # an exception of the code under test is a failed obligation, not a checker error
+        try:
+            v.prove(name, bool(cond()))
+        except Exception as ex:
+            v.prove(name, False, detail=repr(ex)[:200])
+    holds("R_is_CODATA", lambda: abs(_get_R() / 8.314462618 - 1) < 1e-5)
+    holds("kB_over_h_is_CODATA", lambda: abs(_get_kB_over_h() / 2.083661912e10 - 1) < 1e-5)
+    holds("R_constants_path", lambda: abs(to_unitless(_get_R(dc, u), u.J / u.K / u.mol) / 8.314462618 - 1) < 1e-5)
+    holds("kB_over_h_constants_path", lambda: abs(to_unitless(_get_kB_over_h(dc, u), 1 / u.K / u.s) / 2.083661912e10 - 1) < 1e-5)
+    holds("R_units_path", lambda: abs(to_unitless(_get_R(None, u), u.J / u.K / u.mol) - 8.314472) < 1e-12)
+
+
+@harness("C16", "fits", functions=["chempy.kinetics.arrhenius:fit_arrhenius_equation", "chempy.kinetics.arrhenius:_fit", "chempy.kinetics.arrhenius:_fit_linearized",
+                                   "chempy.kinetics.eyring:fit_eyring_equation", "chempy.util.regression:least_squares"], kind="data")
+def _(v):
+    """'constructing a set from known rate constants reproduces them', for the linearised fits: rate constants that lie exactly on an Arrhenius /
+    Eyring curve (computed here from the defining formulas, 4 temperatures) give back A, Ea resp. dH, dS whatever the error bars are (the
+    back-transformations A = exp(p0), Ea = -p1*R, dH = -p1*R, dS = R*(p0 - ln(kB/h)) of the straight line ln k resp. ln(k/T) against 1/T);
+    the straight-line fit itself on three hand-computed cases. (kerr=None is refused in the pinned tree: observation on file; error bars are given)"""
+    import numpy as np
+    import warnings
+    R, kB_h = 8.314472, 2.083661912e10     # the module's documented default gas constant; CODATA kB/h (the module's literal differs by 1.2e-6,
+    T = np.array([280.0, 300.0, 330.0, 370.0])  # which moves dS by R*1.2e-6 = 1e-5 J/(K mol): tolerance 1e-3 on dS)
+    bad = []
+    with warnings.catch_warnings():
+        warnings.simplefilter("ignore")
+        try:
+            from chempy.kinetics.arrhenius import fit_arrhenius_equation
+            from chempy.kinetics.eyring import fit_eyring_equation
+            for A, Ea in ((1e10, 50e3), (3.5e13, 120e3), (7.0, 0.0)):
+                k = np.array([A * math.exp(-Ea / (R * t)) for t in T])
+                for frac in ((0.01, 0.01, 0.01, 0.01), (0.01, 0.02, 0.05, 0.03)):
+                    got = fit_arrhenius_equation(T, k, k * np.array(frac), linearized=True)
+                    if not (len(got) == 2 and abs(got[0] / A - 1) < 1e-8 and abs(got[1] - Ea) < 1e-8 * max(Ea, 1e3)):
+                        bad.append(("arrhenius", A, Ea, frac, got))
+            for dH, dS in ((72e3, 61.4), (40e3, -25.0), (0.0, 0.0)):
+                k = np.array([kB_h * t * math.exp(dS / R) * math.exp(-dH / (R * t)) for t in T])
+                for frac in ((0.01, 0.01, 0.01, 0.01), (0.01, 0.02, 0.05, 0.03)):
+                    got = fit_eyring_equation(T, k, k * np.array(frac), linearized=True)
+                    if not (len(got) == 2 and abs(got[0] - dH) < 1e-8 * max(dH, 1e3) and abs(got[1] - dS) < 1e-3):
+                        bad.append(("eyring", dH, dS, frac, got))
+        except Exception as ex:
+            bad.append(repr(ex)[:200])
+    v.prove("exact_data_is_reproduced", not bad, detail=repr(bad))
+    bad = []
+    with warnings.catch_warnings():
+        warnings.simplefilter("ignore")
+        try:
+            from chempy.util.regression import least_squares
+            # (intercept, slope): the exact line 1 + 2x, without and with weights; y = x**2 at x = 0, 1, 2: unweighted normal equations give
+            # slope (3*9 - 3*5)/(3*5 - 9) = 2, intercept (5 - 2*3)/3 = -1/3, R2 = 1 - (6/9)/(78/9) = 12/13; with weights 1, 1, 2:
+            # Sw = 4, Swx = 5, Swy = 9, Swxx = 9, Swxy = 17 -> slope (4*17 - 5*9)/(4*9 - 25) = 23/11, intercept (9 - 5*23/11)/4 = -4/11
+            for args, want, want_r2 in ((([0, 1, 2], [1, 3, 5]), (1.0, 2.0), 1.0), (([0, 1, 2], [1, 3, 5], [1, 3, 2]), (1.0, 2.0), 1.0),
+                                        (([0, 1, 2], [0, 1, 4]), (-1.0 / 3, 2.0), 12.0 / 13), (([0, 1, 2], [0, 1, 4], [1, 1, 2]), (-4.0 / 11, 23.0 / 11), None)):
+                beta, vcv, r2 = least_squares(*args)
+                if not (len(beta) == 2 and abs(beta[0] - want[0]) < 1e-12 and abs(beta[1] - want[1]) < 1e-12 and (want_r2 is None or abs(r2 - want_r2) < 1e-12)):
+                    bad.append((args, tuple(beta), r2, want, want_r2))
+        except Exception as ex:
+            bad.append(repr(ex)[:200])
+    v.prove("least_squares_hand_computed", not bad, detail=repr(bad))
 
 
 @harness("C16", "eyring_equation", functions=["chempy.kinetics.eyring:eyring_equation", "chempy.kinetics.eyring:_get_kB_over_h", "chempy.kinetics.eyring:EyringParam.__call__",
@@ -480,29 +590,77 @@ def _(v):
     v.prove("two_keys_accepted", two.returned, detail=repr(two.exc))
 
 
-@harness("C16", "mutable_values_not_modified", functions=[RT + ":MassAction.active_conc_prod", RT + ":MassAction.__call__", RT + ":Arrhenius.__call__", "chempy.chemistry:Reaction.rate"], kind="data")
+@harness("C16", "mutable_values_not_modified", functions=[RT + ":MassAction.active_conc_prod", RT + ":MassAction.__call__", RT + ":Arrhenius.__call__", "chempy.chemistry:Reaction.rate",
+                                                          EX + ":create_Poly.<locals>._poly", "chempy.thermodynamics.expressions:MassActionEq.active_conc_prod"], kind="data")
 def _(v):
     """rate expressions evaluated on numpy arrays / quantities (what an integrator or a parameter scan hands in): the caller's variables are left
     as they were and a second evaluation gives the same number"""
     import numpy as np
     from chempy.chemistry import Reaction
     from chempy.kinetics.rates import MassAction, Arrhenius
-    from contracts._purity import prove_pure, deep_equal
+    from contracts._purity import prove_pure
+
+    def pure(name, f, mk, want, materialise=None):
+        """prove_pure + the hand-computed value; an exception of the code under test is a failed obligation (name.value), not a checker error"""
+        try:
+            r = prove_pure(v, name, f, mk, materialise=materialise)
+            if want is not None:
+                v.prove(name + ".value", np.shape(r) == np.shape(want) and bool(np.allclose(r, want, rtol=1e-12, atol=0)), detail=repr(r))
+        except Exception as ex:
+            v.prove(name + (".value" if want is not None else ".evaluates"), False, detail=repr(ex)[:200])
     rxn = Reaction({"A": 1, "B": 2}, {"C": 1}, MassAction([3.0]), checks=())
     mk = lambda: (({"A": np.array([1.0, 2.0]), "B": np.array([3.0, 5.0]), "C": np.array([0.0, 1.0])},), {"reaction": rxn})
-    r = prove_pure(v, "MassAction.arrays", rxn.param, mk)
-    v.prove("MassAction.arrays.value", deep_equal(r, np.array([27.0, 150.0])), detail=repr(r))
-    prove_pure(v, "Reaction.rate.arrays", rxn.rate, lambda: (mk()[0], {}))
+    pure("MassAction.arrays", rxn.param, mk, np.array([27.0, 150.0]))          # 3*[A]*[B]**2
+    pure("Reaction.rate.arrays", rxn.rate, lambda: (mk()[0], {}), None)
     arr = Reaction({"A": 1}, {"C": 1}, MassAction(Arrhenius([2.0, 300.0])), checks=())
-    prove_pure(v, "Arrhenius.arrays", arr.param, lambda: (({"A": np.array([1.0, 2.0]), "temperature": np.array([300.0, 600.0])},), {"reaction": arr, "backend": np}))
+    pure("Arrhenius.arrays", arr.param, lambda: (({"A": np.array([1.0, 2.0]), "temperature": np.array([300.0, 600.0])},), {"reaction": arr, "backend": np}),
+         np.array([2.0 * math.exp(-1.0) * 1.0, 2.0 * math.exp(-0.5) * 2.0]))     # A*exp(-(Ea/R)/T) * [A]
+
+    # the sites of this property that assign in place: the polynomial accumulates with 'res += coeff*cur', 'cur *= x0', 'cur /= x0' and the
+    # equilibrium quotient with 'result *= ...'. Coefficients and variables are the caller's arrays / quantities (they are arguments of the
+    # function under test here, so that prove_pure compares them before and after); values by hand
+    ev = lambda cls: (lambda coeffs, variables: cls(coeffs)(variables))
+    try:
+        from chempy.kinetics._rates import TPoly, RTPoly, ShiftedTPoly
+        from chempy.thermodynamics.expressions import MassActionEq
+        from chempy.chemistry import Equilibrium
+        # array coefficients, scalar temperature: [1, 2] + [1, 1]*2
+        pure("TPoly.array_coefficients", ev(TPoly), lambda: (([np.array([1.0, 2.0]), np.array([1.0, 1.0])], {"temperature": 2.0}), {}), np.array([3.0, 4.0]))
+        # scalar coefficients, array temperature T = (2, 4): 1 + 2T + 3T**2; 1 + 2/T + 4/T**2; x = T - 1: 1 + 2x + 3x**2
+        Ts = lambda: {"temperature": np.array([2.0, 4.0])}
+        pure("TPoly.array_temperature", ev(TPoly), lambda: (([1.0, 2.0, 3.0], Ts()), {}), np.array([17.0, 57.0]))
+        pure("RTPoly.array_temperature", ev(RTPoly), lambda: (([1.0, 2.0, 4.0], Ts()), {}), np.array([3.0, 1.75]))
+        pure("ShiftedTPoly.array_temperature", ev(ShiftedTPoly), lambda: (([1.0, 1.0, 2.0, 3.0], Ts()), {}), np.array([6.0, 34.0]))
+        # array coefficients AND array temperature (the accumulator starts as coeff*1: it must not be the caller's coefficient array):
+        # (1, 2) + (1, 1)*T + (0.5, 0.25)*T**2 at T = (2, 4)
+        pure("TPoly.arrays_both", ev(TPoly), lambda: (([np.array([1.0, 2.0]), np.array([1.0, 1.0]), np.array([0.5, 0.25])], Ts()), {}), np.array([1 + 2 + 2.0, 2 + 4 + 4.0]))
+        eq = Equilibrium({"A": 2, "B": 1}, {"C": 3}, None, checks=())
+        mkq = lambda: (({"A": np.array([1.0, 2.0]), "B": np.array([3.0, 5.0]), "C": np.array([2.0, 1.0])},), {"equilibrium": eq})
+        pure("MassActionEq.quotient.arrays", MassActionEq([4.0]).active_conc_prod, mkq, np.array([8.0 / 3.0, 1.0 / 20.0]))   # C**3/(A**2*B)
+        pure("MassActionEq.equilibrium_equation.arrays", MassActionEq([4.0]).equilibrium_equation, mkq, np.array([4.0 - 8.0 / 3.0, 4.0 - 1.0 / 20.0]))   # K - quotient
+    except Exception as ex:
+        v.prove("in_place_sites.set_up", False, detail=repr(ex)[:200])
     try:
         from chempy.units import default_units as u, to_unitless
+    except ImportError:
+        return
+    try:
         rq = Reaction({"A": 1, "B": 2}, {"C": 1}, MassAction([3.0 / u.molar ** 2 / u.second]), checks=())
         mq = lambda: (({"A": 1.0 * u.molar, "B": 3.0 * u.molar, "C": 0.0 * u.molar},), {"reaction": rq})
-        r = prove_pure(v, "MassAction.quantities", rq.param, mq, materialise=lambda x: float(to_unitless(x, u.molar / u.second)))
-        v.prove("MassAction.quantities.value", abs(r - 27.0) < 1e-12, detail=repr(r))
-    except ImportError:
-        pass
+        pure("MassAction.quantities", rq.param, mq, 27.0, materialise=lambda x: float(to_unitless(x, u.molar / u.second)))
+        # unit-carrying coefficients of different scale: 1/s + 2/(ms K) * 3 K = 6001/s, and the stored 1/s is still 1/s afterwards
+        pure("TPoly.quantities", ev(TPoly), lambda: (([1.0 / u.s, 2.0 / u.ms / u.K], {"temperature": 3 * u.K}), {}), 6001.0, materialise=lambda x: float(to_unitless(x, 1 / u.s)))
+    except Exception as ex:
+        v.prove("quantities.set_up", False, detail=repr(ex)[:200])
+
+
+def _in_molar_power(r, order):
+    """the number r stands for when expressed in molar**(1 - order) (any equivalent spelling of the unit, dm3/mol ..., gives the same number;
+    a wrong dimension raises); a plain number - all-float inputs may well give a float - is taken as it is"""
+    if hasattr(r, "dimensionality"):
+        from chempy.units import default_units as u, to_unitless
+        return float(to_unitless(r, u.molar ** (1 - order)))
+    return float(r)
 
 
 @harness("C16", "as_RateExpr.unmodified_objects", functions=["chempy.kinetics.eyring:EyringParam.as_RateExpr", "chempy.kinetics.arrhenius:ArrheniusParam.as_RateExpr", RT + ":Eyring.__call__",
@@ -520,34 +678,90 @@ def _(v):
     conc = {"A": 0.7, "B": 1.3, "P": 0.0, "temperature": T}
     bad = []
     for order, reac, cp in ((1, {"A": 1}, 0.7), (2, {"A": 1, "B": 1}, 0.7 * 1.3), (3, {"A": 2, "B": 1}, 0.49 * 1.3)):
-        rxn = Reaction(reac, {"P": 1}, checks=())
-        ratex = EyringParam(dH, dS).as_RateExpr()
-        r = ratex(conc, reaction=rxn)
-        mag = float(getattr(r, "magnitude", r))
-        unit = str(getattr(r, "dimensionality", "dimensionless"))
-        want_unit = {1: "dimensionless", 2: "1/M", 3: "1/M**2"}[order]
-        if abs(mag / (kT * cp) - 1) > 2e-5 or unit != want_unit:
-            bad.append((order, mag, kT * cp, unit))
+        try:
+            rxn = Reaction(reac, {"P": 1}, checks=())
+            ratex = EyringParam(dH, dS).as_RateExpr()
+            r = ratex(conc, reaction=rxn)
+            # the unit is judged by converting to molar**(1 - order), not by its spelling
+            mag = _in_molar_power(r, order)
+            if abs(mag / (kT * cp) - 1) > 2e-5:
+                bad.append((order, r, kT * cp))
+        except Exception as ex:
+            bad.append((order, repr(ex)[:200]))
     v.prove("eyring_with_its_default_reference_concentration", not bad, detail=repr(bad))
     rxn = Reaction({"A": 1}, {"P": 1}, checks=())
-    ey = EyringParam(dH, dS).as_RateExpr(unique_keys=("pre", "dHR"))
-    base = float(getattr(ey(conc, reaction=rxn), "magnitude", 0))
-    pre_only = float(getattr(ey(dict(conc, pre=2.0), reaction=rxn), "magnitude", 0))
-    dh_only = float(getattr(ey(dict(conc, dHR=0.0), reaction=rxn), "magnitude", 0))
-    v.prove("eyring_named_override_replaces_exactly_that_argument", abs(base / (kT * 0.7) - 1) < 2e-5 and abs(pre_only / (2.0 * T * math.exp(-dH / (R * T)) * 0.7) - 1) < 2e-5
-            and abs(dh_only / (kB_h * math.exp(dS / R) * T * 0.7) - 1) < 2e-5, detail=repr((base, pre_only, dh_only)))
+    try:
+        ey = EyringParam(dH, dS).as_RateExpr(unique_keys=("pre", "dHR"))
+        # first order: dimensionless whether or not the result carries the (molar**0) unit of the default reference concentration
+        base = _in_molar_power(ey(conc, reaction=rxn), 1)
+        pre_only = _in_molar_power(ey(dict(conc, pre=2.0), reaction=rxn), 1)
+        dh_only = _in_molar_power(ey(dict(conc, dHR=0.0), reaction=rxn), 1)
+        ok = (abs(base / (kT * 0.7) - 1) < 2e-5 and abs(pre_only / (2.0 * T * math.exp(-dH / (R * T)) * 0.7) - 1) < 2e-5
+              and abs(dh_only / (kB_h * math.exp(dS / R) * T * 0.7) - 1) < 2e-5)
+        det = repr((base, pre_only, dh_only))
+    except Exception as ex:
+        ok, det = False, repr(ex)[:200]
+    v.prove("eyring_named_override_replaces_exactly_that_argument", ok, detail=det)
     A, Ea = 3e9, 4.2e4
-    ar = ArrheniusParam(A, Ea).as_RateExpr(unique_keys=("A_fwd", "EaR_fwd"))
-    v0 = ar(conc, reaction=rxn)
-    v1 = ar(dict(conc, A_fwd=5.0), reaction=rxn)
-    v2 = ar(dict(conc, EaR_fwd=0.0), reaction=rxn)
-    v3 = ar(dict(conc, A_fwd=0.0), reaction=rxn)
-    v.prove("arrhenius_named_overrides", abs(v0 / (A * math.exp(-Ea / (R * T)) * 0.7) - 1) < 1e-9 and abs(v1 / (5.0 * math.exp(-Ea / (R * T)) * 0.7) - 1) < 1e-9 and abs(v2 / (A * 0.7) - 1) < 1e-12 and v3 == 0.0,
-            detail=repr((v0, v1, v2, v3)))
+    try:
+        ar = ArrheniusParam(A, Ea).as_RateExpr(unique_keys=("A_fwd", "EaR_fwd"))
+        v0 = ar(conc, reaction=rxn)
+        v1 = ar(dict(conc, A_fwd=5.0), reaction=rxn)
+        v2 = ar(dict(conc, EaR_fwd=0.0), reaction=rxn)
+        v3 = ar(dict(conc, A_fwd=0.0), reaction=rxn)
+        ok = abs(v0 / (A * math.exp(-Ea / (R * T)) * 0.7) - 1) < 1e-9 and abs(v1 / (5.0 * math.exp(-Ea / (R * T)) * 0.7) - 1) < 1e-9 and abs(v2 / (A * 0.7) - 1) < 1e-12 and v3 == 0.0
+        det = repr((v0, v1, v2, v3))
+    except Exception as ex:
+        ok, det = False, repr(ex)[:200]
+    v.prove("arrhenius_named_overrides", ok, detail=det)
+
+
+@harness("C16", "reference_concentration", functions=["chempy.kinetics.eyring:EyringParam.as_RateExpr", RT + ":Eyring.__call__", RT + ":EyringHS.__call__", "chempy.util._expr:Expr.arg",
+                                                      "chempy.util._expr:Expr.__init__"], kind="data")
+def _(v):
+    """the third argument of the Eyring expressions, the reference concentration c0: the rate constant of a reaction of order n is
+    (kB*T/h)*exp(dS/R)*exp(-dH/RT) * c0**(1 - n). The default c0 is 1 (molar), whose powers all have magnitude 1, so the exponent only shows
+    with another value: c0 = 2 and c0 = 1/2 supplied as a named override (floats throughout) divide / multiply the first-order value by
+    2**(n - 1); 'a named override replaces exactly that argument' for the last argument, which is filled from the defaults. EyringHS: the same
+    with its default c0 left in place, with c0 by name, and with the three arguments given as a dict"""
+    import math
+    from chempy.chemistry import Reaction
+    from chempy.kinetics.eyring import EyringParam
+    from chempy.kinetics.rates import MassAction, EyringHS
+    R, kB_h = 8.314472, 2.08366e10           # the module's documented gas constant; kB/h to six digits (tolerance 2e-5)
+    dH, dS, T = 72e3, 61.4, 310.0
+    kT = kB_h * T * math.exp(dS / R) * math.exp(-dH / (R * T))
+    Rg, kB, h = 8.314462618, 1.380649e-23, 6.62607015e-34     # handed in as variables to EyringHS
+    kT_hs = kB / h * T * math.exp(dS / Rg) * math.exp(-dH / (Rg * T))
+    conc = {"A": 0.7, "B": 1.3, "P": 0.0, "temperature": T}
+    conc_hs = dict(conc, molar_gas_constant=Rg, Boltzmann_constant=kB, Planck_constant=h)
+    bad = {"eyring_reference_concentration_by_name": [], "eyringHS_default_reference_concentration": [], "eyringHS_reference_concentration_by_name": [],
+           "eyringHS_dict_arguments": []}
+
+    def check(label, order, f, want, tol):
+        try:
+            got = f()
+            if not abs(got / want - 1) < tol:
+                bad[label].append((order, got, want))
+        except Exception as ex:
+            bad[label].append((order, repr(ex)[:200]))
+    for order, reac, cp in ((1, {"A": 1}, 0.7), (2, {"A": 1, "B": 1}, 0.7 * 1.3), (3, {"A": 2, "B": 1}, 0.49 * 1.3)):
+        rxn = Reaction(reac, {"P": 1}, checks=())
+        for cref in (2.0, 0.5):
+            check("eyring_reference_concentration_by_name", order,
+                  lambda: float(EyringParam(dH, dS).as_RateExpr(unique_keys=("pre", "dHR", "cref"))(dict(conc, cref=cref), reaction=rxn)), kT * cp / cref ** (order - 1), 2e-5)
+            check("eyringHS_reference_concentration_by_name", order,
+                  lambda: float(MassAction(EyringHS([dH, dS], unique_keys=("h_u", "s_u", "c_u")))(dict(conc_hs, c_u=cref), reaction=rxn)), kT_hs * cp / cref ** (order - 1), 1e-12)
+            check("eyringHS_dict_arguments", order,
+                  lambda: float(MassAction(EyringHS({"dS": dS, "c0": cref, "dH": dH}))(conc_hs, reaction=rxn)), kT_hs * cp / cref ** (order - 1), 1e-12)
+        check("eyringHS_default_reference_concentration", order, lambda: _in_molar_power(MassAction(EyringHS([dH, dS]))(conc_hs, reaction=rxn), order), kT_hs * cp, 1e-12)
+    for label in bad:
+        v.prove(label, not bad[label], detail=repr(bad[label]))
 
 
 @harness("C16", "MassAction.arithmetic_values", functions=["chempy.util._expr:Expr.__add__", "chempy.util._expr:Expr.__sub__", "chempy.util._expr:Expr.__neg__", "chempy.util._expr:Expr.__mul__",
-                                                          "chempy.util._expr:Expr.__truediv__", RT + ":MassAction.__call__"], kind="shape-bounded", div_mode="assume", samples=20)
+                                                          "chempy.util._expr:Expr.__truediv__", "chempy.util._expr:UnaryWrapper.__mul__", "chempy.util._expr:UnaryWrapper.__truediv__",
+                                                          "chempy.util._expr:UnaryWrapper.__rtruediv__", RT + ":MassAction.__call__"], kind="shape-bounded", div_mode="assume", samples=20)
 def _(v):
     """arithmetic combinations of mass-action rate expressions evaluate to the same combination of their values (k * concentration product each)"""
     from chempy.chemistry import Reaction
@@ -562,9 +776,46 @@ def _(v):
                               ("times_number", v.call(m1.__mul__, s), k1 * s * cp), ("number_times", v.call(m1.__rmul__, s), s * k1 * cp), ("over_number", v.call(m1.__truediv__, s), k1 / s * cp),
                               ("negated_scaled_sum", v.call(v.call(v.call(m1.__add__, m2).__mul__, s).__neg__), -(k1 + k2) * s * cp)):
         v.prove_identity(label, v.call(expr, var, reaction=rxn), want)
+    # the same clause through the operators themselves (number operands through the reflected methods, as a symbolic number is not a float; so that the delegation Expr.__mul__/__truediv__ -> NotImplemented -> UnaryWrapper.__rmul__/
+    # __rtruediv__, the reflected + and -, ** and products / quotients of two mass-action expressions are reached); value of m_i = k_i * cp
+    from chempy.util._expr import Constant
+    S = Constant([s])
+    for label, mk_expr, want in (("product_of_two", lambda: m1 * m2, k1 * cp * k2 * cp), ("quotient_of_two", lambda: m1 / m2, k1 / k2), ("square", lambda: m1 ** 2, k1 * cp * k1 * cp),
+                                 ("constant_times", lambda: S * m1, s * k1 * cp), ("over_constant", lambda: m1 / S, k1 * cp / s), ("number_plus", lambda: v.call(m1.__radd__, s), s + k1 * cp),
+                                 ("number_minus", lambda: v.call(m1.__rsub__, s), s - k1 * cp), ("plus_number", lambda: v.call(m1.__add__, s), k1 * cp + s),
+                                 ("minus_number", lambda: v.call(m1.__sub__, s), k1 * cp - s),
+                                 ("sum_over_constant_minus_product", lambda: v.call(((m1 + m2) / S).__sub__, m1 * m2), (k1 + k2) * cp / s - k1 * cp * k2 * cp)):
+        try:
+            expr = mk_expr()
+        except Exception as ex:
+            v.prove(label, False, detail="building the expression raised %r" % (ex,))
+            continue
+        v.prove_identity(label, v.call(expr, var, reaction=rxn), want)
+    # number / mass-action: for a reaction without reactants the concentration product is the empty product 1, so the value of m1 is k1 and
+    # s / m1 must be s / k1 (the general statement s / (k1*cp) does not hold in the pinned tree: observation on file, see UnaryWrapper.rdiv)
+    r0 = Reaction({}, {"P": 1}, checks=())
+    for label, mk_expr in (("number_over_at_zero_order", lambda: v.call(m1.__rtruediv__, s)), ("constant_over_at_zero_order", lambda: S / m1)):
+        try:
+            expr = mk_expr()
+        except Exception as ex:
+            v.prove(label, False, detail="building the expression raised %r" % (ex,))
+            continue
+        v.prove_identity(label, v.call(expr, {"P": 0.0}, reaction=r0), s / k1)
+    # an operand that takes its rate constant from a named variable: m1 - mk and m1 + (-mk) are the same combination, so they evaluate alike
+    # = (k1 - k)*cp; the pinned tree refuses the first form (obs.: with a message about UnaryWrapper, because __sub__ probes 'other * 0') -
+    # a refusal is accepted, a different number is not
+    mk = MassAction(unique_keys=("k_named",))
+    var_k = dict(var, k_named=k2)
+    v.prove_identity("plus_negated_keyed_operand", v.call(v.call(m1.__add__, v.call(mk.__neg__)), var_k, reaction=rxn), (k1 - k2) * cp)
+    out = v.run(m1.__sub__, mk)
+    if out.returned:
+        v.prove_identity("minus_keyed_operand_refused_or_right", v.call(out.value, var_k, reaction=rxn), (k1 - k2) * cp)
+    else:
+        v.prove("minus_keyed_operand_refused_or_right", out.raised(), detail=repr(out.exc))
 
 
-@harness("C16", "named_override_through_the_units_wrapper", functions=["chempy.kinetics.arrhenius:ArrheniusParamWithUnits.as_RateExpr", "chempy.kinetics.arrhenius:ArrheniusParam.as_RateExpr"], kind="data")
+@harness("C16", "named_override_through_the_units_wrapper", functions=["chempy.kinetics.arrhenius:ArrheniusParamWithUnits.as_RateExpr", "chempy.kinetics.arrhenius:ArrheniusParam.as_RateExpr",
+                                                                       "chempy.kinetics.eyring:EyringParamWithUnits.as_RateExpr", "chempy.kinetics.eyring:EyringParam.as_RateExpr"], kind="data")
 def _(v):
     """'a named override of an argument replaces exactly that argument', through the unit-carrying parameter set as well: the unique keys given
     to ArrheniusParamWithUnits.as_RateExpr reach the rate expression, an override of the pre-exponential factor doubles the rate, an override
@@ -577,15 +828,62 @@ def _(v):
     warnings.simplefilter("ignore")
     try:
         ap = ArrheniusParamWithUnits(1e10 / u.s, 40e3 * u.J / u.mol)
-        ratex = ap.as_RateExpr(unique_keys=("Aa", "Ea_over_R"))
+        # both keys are spelled unlike the argument names (A, Ea_over_R): an override must come through the DECLARED key, not through a variable
+        # that happens to be called like the argument
+        ratex = ap.as_RateExpr(unique_keys=("Aa", "EaR_x"))
         rx = Reaction({"A": 1}, {"B": 1}, ratex)
         base = {"A": 2 * u.molar, "temperature": 300 * u.K}
         val = lambda extra: float(to_unitless(rx.rate(dict(base, **extra))["B"], u.molar / u.s))
         R = float(to_unitless(c.molar_gas_constant, u.J / u.K / u.mol))
         k0 = 1e10 * math.exp(-40e3 / (R * 300))
-        r0, rA, rE = val({}), val({"Aa": 2e10 / u.s}), val({"Ea_over_R": 3000 * u.K})
+        r0, rA, rE = val({}), val({"Aa": 2e10 / u.s}), val({"EaR_x": 3000 * u.K})
         ok = abs(r0 / (2 * k0) - 1) < 1e-9 and abs(rA / (4 * k0) - 1) < 1e-9 and abs(rE / (2 * 1e10 * math.exp(-3000 / 300.0)) - 1) < 1e-9
         det = repr((r0, rA, rE, 2 * k0))
     except Exception as ex:
         ok, det = False, repr(ex)[:200]
     v.prove("overrides_reach_the_rate_expression", ok, detail=det)
+    try:
+        # 'replaces exactly that argument' also means: nothing else does. A variable named like an argument but not declared as a key is not an
+        # override (here 'A' IS present - it is the substance's concentration, 2 molar - and so is 'Ea_over_R'); second order for the units
+        rN = val({"Ea_over_R": 3000 * u.K})
+        ap2 = ArrheniusParamWithUnits(1e10 / u.s / u.molar, 40e3 * u.J / u.mol)
+        rx2 = Reaction({"A": 1, "C": 1}, {"B": 1}, ap2.as_RateExpr(unique_keys=("Aa", "EaR_x")))
+        base2 = {"A": 2 * u.molar, "C": 3 * u.molar, "temperature": 300 * u.K}
+        val2 = lambda extra: float(to_unitless(rx2.rate(dict(base2, **extra))["B"], u.molar / u.s))
+        s0, sA, sN = val2({}), val2({"Aa": 2e10 / u.s / u.molar}), val2({"Ea_over_R": 3000 * u.K})
+        ok = abs(rN / (2 * k0) - 1) < 1e-9 and abs(s0 / (6 * k0) - 1) < 1e-9 and abs(sA / (12 * k0) - 1) < 1e-9 and abs(sN / (6 * k0) - 1) < 1e-9
+        det = repr((rN, s0, sA, sN, k0))
+    except Exception as ex:
+        ok, det = False, repr(ex)[:200]
+    v.prove("undeclared_variables_named_like_arguments_are_not_overrides", ok, detail=det)
+    # the same clause for the Eyring parameter set with units: keys for all three arguments (the third, the reference concentration, is filled
+    # from the default 1 molar); k(T) = (kB/h)*T*exp(dS/R)*exp(-dH/(R*T)) with the constants of the constants object handed to the wrapper;
+    # orders 1 and 2, default backend and the unit-aware one
+    bad = []
+    try:
+        from chempy.kinetics.eyring import EyringParamWithUnits
+        from chempy.units import Backend
+        kB_h = float(to_unitless(c.Boltzmann_constant / c.Planck_constant, 1 / u.K / u.s))
+        dH, dS, T = 40e3, 10.0, 300.0
+        kT = kB_h * T * math.exp(dS / R) * math.exp(-dH / (R * T))
+        # the same enthalpy spelled in J/mol and in kJ/mol (the stored dH/R is then kJ*K/J until simplified), an override in kK likewise
+        for order, reac, cp, ep in ((1, {"A": 1}, 2.0, EyringParamWithUnits(dH * u.J / u.mol, dS * u.J / u.K / u.mol)),
+                                    (2, {"A": 1, "C": 1}, 6.0, EyringParamWithUnits(dH * u.J / u.mol, dS * u.J / u.K / u.mol)),
+                                    (2, {"A": 1, "C": 1}, 6.0, EyringParamWithUnits(dH / 1000 * u.kilojoule / u.mol, dS * u.J / u.K / u.mol))):
+            for be in (None, Backend()):
+                rxe = Reaction(reac, {"B": 1}, ep.as_RateExpr(unique_keys=("pre", "dHR", "cref")))
+                for label, extra, want in (("stored", {}, kT * cp), ("cref", {"cref": 2 * u.molar}, kT * cp / 2 ** (order - 1)),
+                                           ("pre", {"pre": 2e10 / u.K / u.s}, 2e10 * T * math.exp(-dH / (R * T)) * cp),
+                                           ("dHR", {"dHR": 3000 * u.K}, kB_h * math.exp(dS / R) * T * math.exp(-3000 / 300.0) * cp),
+                                           ("dHR_kK", {"dHR": 3 * u.kK}, kB_h * math.exp(dS / R) * T * math.exp(-3000 / 300.0) * cp),
+                                           ("undeclared", {"dH_over_R": 3000 * u.K, "conc0": 5 * u.molar, "kB_h_times_exp_dS_R": 1 / u.K / u.s}, kT * cp)):
+                    try:
+                        vv = dict(base2, temperature=T * u.K, **extra)
+                        got = float(to_unitless((rxe.rate(vv) if be is None else rxe.rate(vv, backend=be))["B"], u.molar / u.s))
+                        if not abs(got / want - 1) < 1e-9:
+                            bad.append((order, str(ep.dH), be is not None, label, got, want))
+                    except Exception as ex:
+                        bad.append((order, str(ep.dH), be is not None, label, repr(ex)[:120]))
+    except Exception as ex:
+        bad.append(repr(ex)[:200])
+    v.prove("eyring_overrides_reach_the_rate_expression", not bad, detail=repr(bad))
